@@ -37,6 +37,9 @@ type smrInput struct {
 	Points  string    `json:"points"` // coarse | fine
 	Duel    bool      `json:"duel,omitempty"` // one key: writers putting and deleting the very same item
 	Tall    bool      `json:"tall,omitempty"` // writers' level generators seeded so that their first nodes are tall
+	// systematic mode: the running goroutine is switched only after a step that ended at one of these
+	// labels (0 = operation completed); Choices then lists the decisions taken at those points
+	Switch []int `json:"switch,omitempty"`
 }
 
 // tallSeed returns the first seed >= base whose generator makes the first two nodes of a writer at
@@ -62,6 +65,8 @@ type smrResult struct {
 	Frees    int    `json:"frees"`
 	Choices  []int  `json:"choices"`
 	Labels   []int  `json:"labels,omitempty"` // yield-point label reached by each step (0 = operation completed)
+	Decisions  []int   `json:"decisions,omitempty"`   // systematic mode: what was decided at each switch point
+	DecEnabled [][]int `json:"dec_enabled,omitempty"` // and which goroutines were enabled there
 	Case     *smrInput `json:"case,omitempty"` // the full generated case, for the corpus
 }
 
@@ -240,7 +245,35 @@ func smrChild(casePath string) {
 		})
 	}
 	var chooser func([]int) int
-	if len(in.Choices) > 0 {
+	var decisions []int
+	var decEnabled [][]int
+	if len(in.Switch) > 0 {
+		sw := map[int]bool{}
+		for _, l := range in.Switch {
+			sw[l] = true
+		}
+		inner := nonPreemptiveAfter(in.Choices)
+		last := -1
+		chooser = func(en []int) int {
+			if last >= 0 {
+				n := len(sch.Trace)
+				still := false
+				for _, x := range en {
+					if x == last {
+						still = true
+					}
+				}
+				if still && n > 0 && sch.Trace[n-1][0] == last && !sw[sch.Trace[n-1][1]] {
+					return last
+				}
+			}
+			c := inner(en)
+			decisions = append(decisions, c)
+			decEnabled = append(decEnabled, append([]int(nil), en...))
+			last = c
+			return c
+		}
+	} else if len(in.Choices) > 0 {
 		chooser = replayChooser(in.Choices)
 	} else {
 		chooser = randomChooser(rand.New(rand.NewSource(in.Seed^0x5bd1e995)), in.Sticky)
@@ -251,11 +284,11 @@ func smrChild(casePath string) {
 		in.Choices = append(in.Choices, c)
 		return c
 	}
-	if len(in.Choices) > 0 {
+	if len(in.Choices) > 0 || len(in.Switch) > 0 {
 		wrapped = chooser
 	}
 	sch.Run(nt, wrapped, 4000)
-	res := smrResult{Finished: sch.AllFinished(), Steps: len(sch.Trace)}
+	res := smrResult{Finished: sch.AllFinished(), Steps: len(sch.Trace), Decisions: decisions, DecEnabled: decEnabled}
 	if !res.Finished {
 		sch.Abandon()
 	}
@@ -302,6 +335,7 @@ func smrChild(casePath string) {
 	}
 	full := in
 	full.Choices = res.Choices
+	full.Switch = nil // the recorded case replays the complete schedule step by step
 	res.Case = &full
 	out, _ := json.Marshal(&res)
 	os.Stdout.Write(out)
@@ -393,6 +427,79 @@ func smrRun(in *smrInput, tmp string, idx int) (smrResult, string) {
 
 func init() {
 	commands["child-smr"] = func(a runArgs) error { smrChild(a.casep); return nil }
+	commands["smr-exh"] = func(a runArgs) error {
+		sink := NewSink(a.out, "C04", "", a.seed)
+		sink.meta.Rule = "SYSTEMATIC, oracle only, user-managed memory on the guard allocator, one child process per schedule: small duel programs on one same-epoch item (Put / Delete / Delete / GetNode by 2..3 writers); every schedule in which the running writer changes only at operation boundaries, inside Acquire (session loaded, not yet incremented) and between GetNode and DeleteNode is executed (depth-first, capped); oracles as smr"
+		tmp, err := os.MkdirTemp("", "vh-smrx-")
+		if err != nil {
+			return err
+		}
+		defer os.RemoveAll(tmp)
+		top := rand.New(rand.NewSource(a.seed))
+		bs := []int{'a'}
+		total, n := 0, 0
+		for p := 0; p < a.n; p++ {
+			base := smrInput{Cmp: 0, Seed: top.Int63(), Points: "finest", Duel: true, Tall: p%2 == 1,
+				Setup:  []mvOp{{Op: "neww"}, {Op: "neww"}, {Op: "neww"}, {Op: "put", W: 0, Bs: bs}},
+				Switch: []int{0, skiplist.VerifPtAcqLoaded, nitro.VerifPtDelGot}}
+			switch p % 3 {
+			case 0:
+				base.Progs = [][]smrOp{{{Op: "del", Bs: bs}}, {{Op: "del", Bs: bs}}}
+			case 1:
+				base.Progs = [][]smrOp{{{Op: "del", Bs: bs}}, {{Op: "del", Bs: bs}, {Op: "put", Bs: bs}}, {{Op: "get", Bs: bs}}}
+			default:
+				base.Progs = [][]smrOp{{{Op: "del", Bs: bs}, {Op: "put", Bs: bs}}, {{Op: "get", Bs: bs}, {Op: "del", Bs: bs}}}
+			}
+			capN := 90
+			if a.tier == "thorough" {
+				capN = 400
+			}
+			runs := Explore(6, capN, func(ch func([]int) int) ([]int, [][]int) {
+				// the enumeration hands us a chooser built from a prefix: recover the prefix by probing
+				in := base
+				in.Choices = explorePrefix(ch)
+				res, fail := smrRun(&in, tmp, n)
+				n++
+				rec := in
+				if res.Case != nil {
+					rec = *res.Case
+				}
+				idx := sink.Add(fmt.Sprintf("(* smr-exh %d *)", n), &rec, "smr-exh", res.Preempt >= 1)
+				switch {
+				case fail == "hang":
+					sink.Fail(idx, "the scheduled run did not terminate within 30s", "c04-hang", &rec)
+				case fail != "":
+					sig := "c04-crash"
+					if strings.Contains(fail, "SIGSEGV") || strings.Contains(fail, "fault address") || strings.Contains(fail, "unexpected signal") {
+						sig = "c04-uaf"
+						if gbs, err := os.ReadFile(filepath.Join(tmp, fmt.Sprintf("smr%d.json.trace", n-1))); err == nil {
+							full := in
+							full.Switch = nil
+							full.Choices = nil
+							for _, ln := range strings.Split(string(gbs), "\n") {
+								var x, y int
+								if k, _ := fmt.Sscanf(ln, "%d %d", &x, &y); k == 2 {
+									full.Choices = append(full.Choices, x)
+								}
+							}
+							if smrLateLink(&full, filepath.Join(tmp, fmt.Sprintf("smr%d.json.trace", n-1))) {
+								sig = "c04-uaf-late-link"
+							}
+							rec = full
+						}
+					}
+					sink.Fail(idx, "the process died while running the schedule (an access to freed memory faults under the guard allocator): "+fail, sig, &rec)
+				case res.Bad != "":
+					sink.Fail(idx, res.Bad, res.Sig, &rec)
+				}
+				return res.Decisions, res.DecEnabled
+			})
+			total += runs
+		}
+		sink.meta.Extra = map[string]interface{}{"programs": a.n, "schedules": total}
+		sink.cases = nil
+		return sink.Flush()
+	}
 	commands["smr"] = func(a runArgs) error {
 		sink := NewSink(a.out, "C04", "", a.seed)
 		sink.meta.Rule = "instances with user-managed memory on the guard allocator (every block its own mmap, PROT_NONE after free, never reused): an initial store over 0..2 earlier epochs, then 2..3 writer goroutines with 1..3 Put/Delete/GetNode over 2..4 keys (same-epoch and cross-epoch deletes, several writers on one key), scheduled at the publish CAS / own-pointer / upper-level link / mark CAS / help-delete CAS and between GetNode and DeleteNode; each case runs in a child process; oracles: no crash (a use-after-free faults), no double free or unknown free, no freed node or item linked at any level (checked without following pointers into freed memory), nothing leaked after Close; non-trivial = at least 2 preemptions and at least one block freed during the schedule"
